@@ -1142,6 +1142,10 @@ func runCE2E(r *verifsim.Run) {
 	sc := &cScenario{Focus: r.Prop}
 	sc.OutName = outNames[r.Draw(len(outNames))]
 	nConn := r.OneOf(1, 1, 2)
+	if r.Chance(1, 20) {
+		nConn = r.Range(3, 6) // the camera daemon keeps restarting
+		r.Probe("stratum-many-reconnects")
+	}
 	id := 0
 	// stratum: cameras whose frames are larger than a Lepton's 39040 bytes, one after the other
 	// (every per-connection buffer has to be sized for the camera that is connected now)
